@@ -25,7 +25,7 @@ ENTERPRISES = (1, 3, 6, 1, 4, 1)
 PRIVATE = (1, 3, 6, 1, 4)
 ISO_PATH = [('iso', 1), ('org', 3), ('dod', 6), ('internet', 1), ('private', 4), ('enterprises', 1)]
 ARCS = [7, 70, 4, 48]          # arcs of nodes 0..3 (digit-sharing siblings on purpose)
-MODNAMES = ['ALPHA-MIB', 'BETA-MIB', 'GAMMA-MIB']
+MODNAMES = ['ALPHA-MIB', 'BETA-MIB', 'GAMMA-MIB', 'DELTA-MIB']
 PLAIN = ['nodeA', 'nodeB', 'nodeC', 'nodeD']
 HYPH = ['node-a', 'node-b', 'node-c', 'node-d']
 
@@ -192,17 +192,19 @@ def dotted(t):
     return '.'.join(str(x) for x in t)
 
 
-def observe(mods, truth, kinds_by_name, sigbase):
-    """Compile the set with both back ends; compare every OID view with the ground truth."""
-    texts = dict((m['name'], mibspec.pretty([m])) for m in mods)
+def observe(mods, truth, kinds_by_name, sigbase, request=None, options=None):
+    """Compile the set with both back ends; compare every OID view with the ground truth.
+    request / options: ask for these modules only, with these compile() options (then only they are judged)."""
+    alltexts = dict((m['name'], mibspec.pretty([m])) for m in mods)
+    texts = alltexts if request is None else dict((n, alltexts[n]) for n in request)
     vs = []
     steps = 0
     outcome = []
     for backend in ('json', 'pysnmp'):
         parser = env.shared_parser('smiV1Relaxed' if any(k == 'trap' for k in kinds_by_name.values()) else 'smiV2')
         parser.reset()
-        res, written = env.compile_set(texts, sorted(texts, reverse=(backend == 'json')), codegen=backend,
-                                       dialect=parser)
+        res, written = env.compile_set(alltexts, sorted(texts, reverse=(backend == 'json')), codegen=backend,
+                                       dialect=parser, **(options or {}))
         steps += 1
         bad = [(n, str(res.get(n)), str(getattr(res.get(n), 'error', ''))) for n in texts if res.get(n) != 'compiled']
         if bad:
@@ -557,4 +559,30 @@ class ArcValues(object):
         return observe(mods, truth, {'rootNode': 'value', 'subject': kind}, 'C01|G|arc=%d|%s|%s' % (v, where, kind))
 
 
-FAMILIES = [Shapes(), Spellings(), Kinds(), SameNames(), ArcZero(), TableOrders(), ArcValues()]
+
+class NoDepsChains(object):
+    name = 'H-noDeps-chains'
+    describe = ('a chain of 3 / 4 nodes, every node in a module of its own (each module imports only its parent\'s module); the '
+                'LAST module alone is requested with noDeps on and off, in 3 spellings: its node gets the OID the chain defines')
+
+    def blocks(self, tier):
+        return [{'k': k} for k in (2, 3, 4)]
+
+    def cases(self, block, tier):
+        for form in (0, 1, 2):
+            for nd in (False, True):
+                yield {'k': block['k'], 'form': form, 'nd': nd}
+
+    def run_case(self, case):
+        k = case['k']
+        parents = [i - 1 for i in range(k)]
+        names = PLAIN[:k]
+        part = list(range(k))
+        forms = [0] * (k - 1) + [case['form']]
+        mods, truth = build_modules(parents, names, part, [[0]] * k, forms, ['value'] * k)
+        last = MODNAMES[k - 1]
+        sig = 'C01|H|chain=%d|%s' % (k, 'noDeps' if case['nd'] else 'deps')
+        return observe(mods, {last: truth[last]}, dict((n, 'value') for n in names), sig, request=[last],
+                       options={'noDeps': True} if case['nd'] else None)
+
+FAMILIES = [Shapes(), Spellings(), Kinds(), SameNames(), ArcZero(), TableOrders(), ArcValues(), NoDepsChains()]
